@@ -558,6 +558,20 @@ fn run(a: &[&str]) -> String {
         "ibit" => format!("{}", pi(a[1]).bit(pu64(a[2]))),
         "iset_bit" => { let mut x = pi(a[1]); x.set_bit(pu64(a[2]), a[3] == "1"); fi(&x) }
         "iabs" => fi(&pi(a[1]).abs()),
+        // ---- C19: sign / identity helpers
+        "signmul" => format!("{:?}", sg(a[1]) * sg(a[2])),
+        "signneg" => format!("{:?}", -sg(a[1])),
+        "isignprops" => { let x = pi(a[1]); let (s2, m2) = x.clone().into_parts();
+            format!("{:?} {} {} {} {:?} {} {}", x.sign(), x.is_positive(), x.is_negative(), fu(x.magnitude()), s2, fu(&m2), fi(&BigInt::from_biguint(s2, m2.clone()))) }
+        "ineg_ref" => { let x = pi(a[1]); format!("{} {}", fi(&(-&x)), fi(&(-(-x)))) }
+        "iident" => { let x = pi(a[1]); let mut z = x.clone(); z.set_zero(); let mut o = x.clone(); o.set_one();
+            format!("{} {} {} {} {} {} {} {}", fi(&BigInt::zero()), fi(&BigInt::ZERO), fi(&BigInt::default()), fi(&BigInt::one()), x.is_zero(), x.is_one(), fi(&z), fi(&o)) }
+        "uident" => { let x = pu(a[1]); let mut z = x.clone(); z.set_zero(); let mut o = x.clone(); o.set_one();
+            format!("{} {} {} {} {} {} {} {}", fu(&BigUint::zero()), fu(&BigUint::ZERO), fu(&BigUint::default()), fu(&BigUint::one()), x.is_zero(), x.is_one(), fu(&z), fu(&o)) }
+        "iconvs" => { let x = pi(a[1]);
+            format!("{} {} {}", opt(num_bigint::ToBigUint::to_biguint(&x), fu), opt(num_bigint::ToBigInt::to_bigint(&x), fi), opt(BigUint::try_from(x.clone()).ok(), fu)) }
+        "uconvs" => { let x = pu(a[1]);
+            format!("{} {} {}", opt(num_bigint::ToBigInt::to_bigint(&x), fi), fi(&BigInt::from(x.clone())), opt(num_bigint::ToBigUint::to_biguint(&x), fu)) }
         "iabs_sub" => fi(&pi(a[1]).abs_sub(&pi(a[2]))),
         "isignum" => fi(&pi(a[1]).signum()),
         "ito_biguint" => opt(pi(a[1]).to_biguint(), fu),
